@@ -206,6 +206,14 @@ func runC04(c *Ctx) {
 				defer func() { <-sem }()
 				ctx, cancel := context.WithCancel(context.Background())
 				defer cancel()
+				if len(k.id)%3 == 0 {
+					// an application context that has already carried a (completed) global transaction: the next
+					// transaction on it must be a transaction of its own, decided like any other
+					ctx = tm.InitSeataContext(ctx)
+					safeCall(func() {
+						tm.WithGlobalTx(ctx, &tm.GtxConfig{Name: k.name + "-earlier", Timeout: 30 * time.Second}, func(context.Context) error { return nil })
+					})
+				}
 				k.mu.Lock()
 				k.cancel = cancel
 				k.mu.Unlock()
